@@ -1,4 +1,5 @@
 import Postcard.Props.C12
+import Postcard.Props.C12Exact
 -- property theorems of C12: every one must depend only on propext / Classical.choice / Quot.sound
 #print axioms Postcard.varint_len_le_size
 #print axioms Postcard.varint_len_eq_size
@@ -13,3 +14,12 @@ import Postcard.Props.C12
 #print axioms Postcard.max_size_roundtrip
 #print axioms Postcard.fixint_within_max_size
 #print axioms Postcard.inhabits_iff_hasTy
+#print axioms Postcard.enc_le_encMax
+#print axioms Postcard.encMax_attained
+#print axioms Postcard.encMax_le_maxSize
+#print axioms Postcard.encMax_eq_maxSize_of_tight
+#print axioms Postcard.bound_iff_encMax_le
+#print axioms Postcard.bound_of_encMax_le
+#print axioms Postcard.encMax_not_attained_option_empty_payload
+#print axioms Postcard.listed_tight
+#print axioms Postcard.c12_decided_by_encMax
